@@ -283,8 +283,11 @@ class Connection(ExportImport):
 
     def close(self, primary=True):
         """Close the Connection."""
-        if not self._needs_to_join:
-            # We're currently joined to a transaction.
+        if not self._needs_to_join or (primary and any(
+                not connection._needs_to_join
+                for connection in self.connections.values())):
+            # We (or, for a primary connection, one of the connections that
+            # are closed with us) are currently joined to a transaction.
             raise ConnectionStateError("Cannot close a connection joined to "
                                        "a transaction")
 
